@@ -169,6 +169,10 @@ SCENARIOS = [
     ('raise-in-grade', ['grade-raises', 'best-F-MAR'], 0),
     ('raise-then-afactor', ['score-raises', 'afactor-F69-LJ'], 0),
     ('va-missing-limit', ['va-missing', 'va-perf'], 19),
+    # a cache HIT on the newest entry while the other caller's miss evicts at the limit
+    ('sv-hit-newest', ['sv-race-3', 'sv-athlete-4'], -19),
+    ('va-hit-newest', ['va-athlete', 'va-perf'], -19),
+    ('va-bad-hit-newest', ['va-athlete-bad', 'va-perf'], -19),
     # three threads
     ('score-3', ['score-M100', 'score-FHJ', 'needed-F800'], 0),
     ('factor-3', ['factor-M50-100', 'factor-F72-MAR', 'grade-F40-LJ'], 0),
@@ -195,8 +199,20 @@ class Scenario(object):
             if self.fill:       # warm tables, but the caches at their limit without the scenario's own keys
                 u._schema_valid_cache.clear()
                 u._valid_against_schema_cache.clear()
-        if self.fill:
+        if self.fill and self.fill > 0:
             fill_caches(self.fill)
+        elif self.fill and self.fill < 0:
+            # the FIRST caller's own answer is cached as the newest entry of a cache at its limit (a hit), the other
+            # caller's is not (a miss whose insertion evicts the newest entries)
+            u = mod('utils')
+            u._schema_valid_cache.clear()
+            u._valid_against_schema_cache.clear()
+            fill_caches(-self.fill)
+            try:
+                with _stdout_guard():
+                    self.thunks[0]()
+            except Exception:
+                pass
 
     def solo(self):
         out = []
